@@ -353,7 +353,10 @@ func TestC13(t *testing.T) {
 		}
 	}
 	for _, seq := range seqs {
-		for layout := 0; layout < 2; layout++ {
+		for layout := 0; layout < 4; layout++ {
+			if layout >= 2 && len(seq) < 2 {
+				continue
+			}
 			// layout 0: consecutive slices of one file starting at offset 3 (middle), file longer than the slices (end untouched)
 			// layout 1: parts alternate between two files, each slice at the start / reaching the end of its file
 			var c c13Case
@@ -364,6 +367,22 @@ func TestC13(t *testing.T) {
 					sum += l
 				}
 				c.Sizes = []int64{sum + 5, 4}
+			} else if layout == 2 || layout == 3 {
+				// layout 2: slices of one file with holes between them (the missing ranges of a partly
+				// delivered file); layout 3: the same slices in descending order
+				var sum int64 = 2
+				var ps []partSpec
+				for _, l := range seq {
+					ps = append(ps, partSpec{File: 0, Beg: sum, End: sum + l})
+					sum += l + 5
+				}
+				if layout == 3 {
+					for i, j := 0, len(ps)-1; i < j; i, j = i+1, j-1 {
+						ps[i], ps[j] = ps[j], ps[i]
+					}
+				}
+				c.Parts = ps
+				c.Sizes = []int64{sum, 4}
 			} else {
 				off := []int64{0, 0}
 				for i, l := range seq {
@@ -424,7 +443,7 @@ func TestC13(t *testing.T) {
 			run(cc)
 		}
 	}
-	rep.Bound = fmt.Sprintf("every payload of 1-3 parts with part lengths from {1,2,7,8192,8193} in two layouts (consecutive middle slices of one file; slices alternating between two files, at the start and reaching the end), read through buffers of 1/3/4096/32768 bytes, plain and gzip levels %v, separators none / '/' / '\\\\', names with spaces, unicode, ':' and the other separator, times with nanoseconds; every 3-part payload transmitted a second time after one part was removed from it or after it was split behind part 1 or 2; every truncation point of one 3-part payload; announced header lengths off by -40..+40", gz)
+	rep.Bound = fmt.Sprintf("every payload of 1-3 parts with part lengths from {1,2,7,8192,8193} in four layouts (consecutive middle slices of one file; slices alternating between two files, at the start and reaching the end; slices of one file with holes between them, ascending and descending), read through buffers of 1/3/4096/32768 bytes, plain and gzip levels %v, separators none / '/' / '\\\\', names with spaces, unicode, ':' and the other separator, times with nanoseconds; every 3-part payload transmitted a second time after one part was removed from it or after it was split behind part 1 or 2; every truncation point of one 3-part payload; announced header lengths off by -40..+40", gz)
 }
 
 func c13Class(c c13Case, v string) string {
